@@ -255,9 +255,10 @@ func CoerceNumber(v Value) float64 {
 // ("1000000", not "1e+06").
 func formatFloat(f float64, bitSize int) string {
 	if f == math.Trunc(f) && math.Abs(f) < 1e21 {
-		// All digits of the integer: the shortest float32 representation
-		// ("123456790" for 123456792) would name another number.
-		return strconv.FormatFloat(f, 'f', -1, 64)
+		// All digits of the integer, as an integer type prints them: the
+		// shortest representation ("123456790" for the float32 123456792,
+		// "4611686018427388000" for 2^62) would name another number.
+		return strconv.FormatFloat(f, 'f', 0, 64)
 	}
 	return strconv.FormatFloat(f, 'g', -1, bitSize)
 }
